@@ -1654,6 +1654,13 @@ func (fr *Frame) sourceOrdinal(sel string) int {
 				name = f.String()
 			} else {
 				name = dynCallName(cc)
+				if u, ok := cc.Value.(*ssa.UnOp); ok {
+					if g, ok := u.X.(*ssa.Global); ok {
+						if f := fr.e.globalFunc(g); f != nil {
+							name = f.String() // resolved exactly as the call itself is
+						}
+					}
+				}
 			}
 			if calleeMatches(name, sel) {
 				all = append(all, cp{in, int(in.Pos()), seq})
